@@ -19,6 +19,8 @@ structure OutInv (s : State) : Prop where
   ownW : ∀ w ∈ s.sh.file, ∀ x ∈ w.items, x.tid = w.tid ∧ x.op = w.op
   /-- the pieces a thread produced are numbered 0, 1, 2, … -/
   seqE : ∀ t, (s.th t).emitted.map (·.seq) = List.range (s.th t).emitted.length
+  /-- everything a thread produced carries that thread's id -/
+  ownE : ∀ t, ∀ x ∈ (s.th t).emitted, x.tid = t
   /-- conservation: written ++ captured ++ still buffered = produced (as multisets, non-empty pieces) -/
   cons : ∀ t, ((written s t ++ capturedItems (s.th t) ++ (s.th t).buffer).filter nonEmpty).Perm
       ((s.th t).emitted.filter nonEmpty)
@@ -100,13 +102,15 @@ theorem out_step {cfg : Cfg} {s s' : State} {t : Nat} (inv : Inv cfg s) (o : Out
         rw [hc] at hs
         simp only [Sim, Abs.final, Local.abs, Bool.and_eq_true, Bool.not_eq_true'] at hs
         exact inv.clean t hs.2
-      refine ⟨fun u => ?_, fun u => ?_, o.ownW, fun u => ?_, fun u => ?_⟩ <;> by_cases hu : u = t
+      refine ⟨fun u => ?_, fun u => ?_, o.ownW, fun u => ?_, fun u => ?_, fun u => ?_⟩ <;> by_cases hu : u = t
       · subst hu; simp only [upd_same, hbuf]; intro x hx; simp at hx
       · simp only [upd_other _ _ hu]; exact o.ownB u
       · subst hu; simp only [upd_same]; exact o.ownC u
       · simp only [upd_other _ _ hu]; exact o.ownC u
       · subst hu; simp only [upd_same]; exact o.seqE u
       · simp only [upd_other _ _ hu]; exact o.seqE u
+      · subst hu; simp only [upd_same]; exact o.ownE u
+      · simp only [upd_other _ _ hu]; exact o.ownE u
       · subst hu; simpa only [upd_same, written, capturedItems] using o.cons u
       · simpa only [upd_other _ _ hu, written, capturedItems] using o.cons u
   | cons g r =>
@@ -118,7 +122,7 @@ theorem out_step {cfg : Cfg} {s s' : State} {t : Nat} (inv : Inv cfg s) (o : Out
       obtain ⟨hn, hcase⟩ := exec_out he
       rcases hcase with ⟨b, hb, hem, hcap, hf⟩ | ⟨_, hf, hb, hem, hcap⟩ | ⟨_, hcap, hb, hem, hf⟩ | ⟨hb, hem, hcap, hf⟩
       · -- a piece is produced
-        refine ⟨fun u => ?_, fun u => ?_, ?_, fun u => ?_, fun u => ?_⟩
+        refine ⟨fun u => ?_, fun u => ?_, ?_, fun u => ?_, fun u => ?_, fun u => ?_⟩
         · by_cases hu : u = t
           · subst hu
             simp only [upd_same, hb, hn]
@@ -138,6 +142,14 @@ theorem out_step {cfg : Cfg} {s s' : State} {t : Nat} (inv : Inv cfg s) (o : Out
           · simp only [upd_other _ _ hu]; exact o.seqE u
         · by_cases hu : u = t
           · subst hu
+            simp only [upd_same, hem]
+            intro x hx
+            rcases List.mem_append.mp hx with hx | hx
+            · exact o.ownE u x hx
+            · simp at hx; subst hx; rfl
+          · simp only [upd_other _ _ hu]; exact o.ownE u
+        · by_cases hu : u = t
+          · subst hu
             have := o.cons u
             simp only [upd_same, hb, hem, capturedItems, hcap, written, hf] at this ⊢
             simp only [← List.append_assoc, List.filter_append]
@@ -146,7 +158,7 @@ theorem out_step {cfg : Cfg} {s s' : State} {t : Nat} (inv : Inv cfg s) (o : Out
           · have := o.cons u
             simpa only [upd_other _ _ hu, written, hf, capturedItems] using this
       · -- the write
-        refine ⟨fun u => ?_, fun u => ?_, ?_, fun u => ?_, fun u => ?_⟩
+        refine ⟨fun u => ?_, fun u => ?_, ?_, fun u => ?_, fun u => ?_, fun u => ?_⟩
         · by_cases hu : u = t
           · subst hu; simp only [upd_same, hb]; intro x hx; simp at hx
           · simp only [upd_other _ _ hu]; exact o.ownB u
@@ -163,6 +175,9 @@ theorem out_step {cfg : Cfg} {s s' : State} {t : Nat} (inv : Inv cfg s) (o : Out
         · by_cases hu : u = t
           · subst hu; simp only [upd_same, hem]; exact o.seqE u
           · simp only [upd_other _ _ hu]; exact o.seqE u
+        · by_cases hu : u = t
+          · subst hu; simp only [upd_same, hem]; exact o.ownE u
+          · simp only [upd_other _ _ hu]; exact o.ownE u
         · have key : ∀ u, written { sh := sh', th := upd s.th t l' } u =
               written s u ++ (if u = t ∧ (s.th t).buffer.any nonEmpty = true then (s.th t).buffer else []) := by
             intro u
@@ -195,7 +210,7 @@ theorem out_step {cfg : Cfg} {s s' : State} {t : Nat} (inv : Inv cfg s) (o : Out
           · have := o.cons u
             simpa only [upd_other _ _ hu, hu, false_and, if_false, List.append_nil, capturedItems] using this
       · -- the end of a capture block
-        refine ⟨fun u => ?_, fun u => ?_, ?_, fun u => ?_, fun u => ?_⟩
+        refine ⟨fun u => ?_, fun u => ?_, ?_, fun u => ?_, fun u => ?_, fun u => ?_⟩
         · by_cases hu : u = t
           · subst hu
             simp only [upd_same, hb, hn]
@@ -214,6 +229,9 @@ theorem out_step {cfg : Cfg} {s s' : State} {t : Nat} (inv : Inv cfg s) (o : Out
         · by_cases hu : u = t
           · subst hu; simp only [upd_same, hem]; exact o.seqE u
           · simp only [upd_other _ _ hu]; exact o.seqE u
+        · by_cases hu : u = t
+          · subst hu; simp only [upd_same, hem]; exact o.ownE u
+          · simp only [upd_other _ _ hu]; exact o.ownE u
         · dsimp only
           by_cases hu : u = t
           · subst hu
@@ -230,7 +248,7 @@ theorem out_step {cfg : Cfg} {s s' : State} {t : Nat} (inv : Inv cfg s) (o : Out
           · have := o.cons u
             simpa only [upd_other _ _ hu, written, hf, capturedItems] using this
       · -- nothing of the output moves
-        refine ⟨fun u => ?_, fun u => ?_, ?_, fun u => ?_, fun u => ?_⟩
+        refine ⟨fun u => ?_, fun u => ?_, ?_, fun u => ?_, fun u => ?_, fun u => ?_⟩
         · by_cases hu : u = t
           · subst hu; simp only [upd_same, hb, hn]; exact o.ownB u
           · simp only [upd_other _ _ hu]; exact o.ownB u
@@ -241,6 +259,9 @@ theorem out_step {cfg : Cfg} {s s' : State} {t : Nat} (inv : Inv cfg s) (o : Out
         · by_cases hu : u = t
           · subst hu; simp only [upd_same, hem]; exact o.seqE u
           · simp only [upd_other _ _ hu]; exact o.seqE u
+        · by_cases hu : u = t
+          · subst hu; simp only [upd_same, hem]; exact o.ownE u
+          · simp only [upd_other _ _ hu]; exact o.ownE u
         · dsimp only
           have := o.cons u
           by_cases hu : u = t
@@ -249,13 +270,15 @@ theorem out_step {cfg : Cfg} {s s' : State} {t : Nat} (inv : Inv cfg s) (o : Out
     · rw [if_neg hg] at h
       simp only [Option.some.injEq] at h
       subst h
-      refine ⟨fun u => ?_, fun u => ?_, o.ownW, fun u => ?_, fun u => ?_⟩ <;> by_cases hu : u = t
+      refine ⟨fun u => ?_, fun u => ?_, o.ownW, fun u => ?_, fun u => ?_, fun u => ?_⟩ <;> by_cases hu : u = t
       · subst hu; simp only [upd_same]; exact o.ownB u
       · simp only [upd_other _ _ hu]; exact o.ownB u
       · subst hu; simp only [upd_same]; exact o.ownC u
       · simp only [upd_other _ _ hu]; exact o.ownC u
       · subst hu; simp only [upd_same]; exact o.seqE u
       · simp only [upd_other _ _ hu]; exact o.seqE u
+      · subst hu; simp only [upd_same]; exact o.ownE u
+      · simp only [upd_other _ _ hu]; exact o.ownE u
       · subst hu; simpa only [upd_same, written, capturedItems] using o.cons u
       · simpa only [upd_other _ _ hu, written, capturedItems] using o.cons u
 
@@ -270,11 +293,31 @@ theorem out_run {cfg : Cfg} (sched : List Nat) : ∀ {s : State}, Inv cfg s → 
     | some s' => simpa [run] using ih (inv_step hi hs) (out_step hi h hs)
 
 theorem out_init (sh : Shared) (progs : List (List Op)) (hfile : sh.file = []) : OutInv (initState sh progs) := by
-  refine ⟨fun t x hx => ?_, fun t c hc => ?_, fun w hw => ?_, fun t => ?_, fun t => ?_⟩
+  refine ⟨fun t x hx => ?_, fun t c hc => ?_, fun w hw => ?_, fun t => ?_, fun t x hx => ?_, fun t => ?_⟩
   · simp [initState] at hx
   · simp [initState] at hc
   · simp [initState, hfile] at hw
   · simp [initState]
+  · simp [initState] at hx
   · simp [initState, written, hfile, capturedItems]
+
+theorem nodup_of_map {α β : Type} (f : α → β) {l : List α} (h : (l.map f).Nodup) : l.Nodup := by
+  simp only [List.Nodup, List.pairwise_map] at h ⊢
+  exact h.imp (fun hab e => hab (by rw [e]))
+
+theorem count_eq_one {α : Type} [BEq α] [LawfulBEq α] {a : α} : ∀ {l : List α}, l.Nodup → a ∈ l → l.count a = 1
+  | [], _, h => by simp at h
+  | b :: l, hn, h => by
+    have hn' := List.nodup_cons.mp hn
+    by_cases hab : b = a
+    · subst hab
+      have : l.count b = 0 := List.count_eq_zero.mpr hn'.1
+      simp [this]
+    · have hm : a ∈ l := by
+        rcases List.mem_cons.mp h with h | h
+        · exact absurd h.symm hab
+        · exact h
+      have := count_eq_one hn'.2 hm
+      simp [hab, this]
 
 end RichModel.Conc
